@@ -12,23 +12,23 @@ CLAIMS = {
    note="Trusts Kani's MIR->goto translation, CBMC, CaDiCaL. Division/remainder is decided against the definition q*d+r=a only for d in {1,2,3,7,MAX_MONEY+1,u64::MAX} and against machine division for d in {MAX_MONEY, 2^32+1}; other divisors (a symbolic divisor, 5000, 10^8 did not finish) are outside the claim. Sum impls: 3 elements.",
    ref="§5 C09"),
  "C19": dict(
-   text="Parameters: for ALL (n,k) in u32^2 whatever Params::new accepts satisfies every downstream precondition (no assert!/division by zero/overflow can fire). Decoding: for all byte strings of the exact length the decoder output equals an independent big-endian bit-slicer; every other length is rejected. One step of the tree validator from ARBITRARY children (all hashes, all indices) equals the definition (collision on the segment, ordering, distinctness, xor of tails, root zero test); leaves are derived from the right hash block and byte range for every index under an arbitrary hash function; the root test on a 1-leaf tree checks the whole last segment. Larger trees = structural recursion over these steps (stated, not solved end to end).",
+   text="Parameters: for ALL (n,k) in u32^2 whatever Params::new accepts satisfies every downstream precondition (no assert!/division by zero/overflow can fire). Decoding: for all byte strings of the exact length the decoder output equals an independent big-endian bit-slicer; every other length is rejected. One step of the tree validator from ARBITRARY children (all hashes, all indices) equals the definition (collision on the segment, ordering, distinctness, xor of tails, root zero test); leaves are derived from the right hash block and byte range for every index under an arbitrary hash function; the root test on a 1-leaf tree checks the whole last segment; solutions one byte shorter/longer than required are rejected for the parameter sets in use. Larger trees = structural recursion over these steps (stated, not solved end to end).",
    note="Hash abstraction: equihash::verify::generate_hash is stubbed by an arbitrary function in the leaf/grid harnesses, so nothing is claimed about BLAKE2b output values or personalisation. Children of 1, 2 and 4 indices; k=3 decoders for index widths 9..25 bits; whole-tree runs through is_valid_solution did not get through symex and are outside the claim. Uses the cfg(zcash_librustzcash_verif) hook module equihash::verif_hooks.",
    ref="§5 C19"),
 }
 
 CLAIMS.update({
  "C03": dict(
-   text="Codec kernels with COMPLETE input spaces: the local zcash_encoding CompactSize reader/writer for ALL byte strings of length 0..=9 and ALL u64 values (no panic, bytes consumed, every non-canonical prefix and over-limit value rejected, accepted input re-encodes to the consumed bytes); Optional; TxVersion::read/write for ALL byte strings of length 0..=8 against an independently written accept set (non-overwintered >= 1, the four version/group-id pairs), canonical re-serialisation; OutPoint for all strings of length 0..=37. Amount encodings are decided under C09.",
-   note="Outside the claim (stated in DESIGN): transaction/bundle structure (read_v4/v5/v6; Sapling/Orchard/Ironwood bundles need curve-point decoding), TxIn/TxOut/Script (Vec-producing readers did not get through symex), BlockHeader hashing, txid/auth-commitment equality after a round trip. zcash_primitives links the published zcash_encoding 0.4 from the registry, not the local 0.5 harnessed here.",
+   text="Codec kernels with COMPLETE input spaces: the local zcash_encoding CompactSize reader/writer for ALL byte strings of length 0..=9 and ALL u64 values (no panic, bytes consumed, every non-canonical prefix and over-limit value rejected, accepted input re-encodes to the consumed bytes); Optional; TxVersion::read/write for ALL byte strings of length 0..=8 against an independently written accept set (non-overwintered >= 1, the four version/group-id pairs), canonical re-serialisation, and which sections (Sprout/Sapling/Orchard/Ironwood) each accepted version carries; OutPoint for all strings of length 0..=37; TxOut::read for ALL 8-byte amount fields (Ok iff 0..=MAX_MONEY, never a panic, write reproduces the bytes; empty script). Amount encodings are decided under C09.",
+   note="Outside the claim (stated in DESIGN): transaction/bundle structure (read_v4/v5/v6; Sapling/Orchard/Ironwood bundles need curve-point decoding), TxIn and non-empty Script (Vec-producing readers did not get through symex), BlockHeader hashing, txid/auth-commitment equality after a round trip. zcash_primitives links the published zcash_encoding 0.4 from the registry, not the local 0.5 harnessed here.",
    ref="§5 C03"),
  "C07": dict(
-   text="ZIP 317 fee_required equals 5000*max(2, logical actions) computed in 128-bit arithmetic for all sizes/counts in the bounds; SingleOutputChangeStrategy::compute_balance on a Sapling 1-in/1-out transaction: for ALL values, dust policies/thresholds, target and anchor heights the solver shows conservation (inputs = outputs + change + fee), fee = ZIP 317 fee of the final shape unless dust is folded in, the dust rule, and that InsufficientFunds is honest.",
-   note="Bounds: 2 transparent inputs/outputs with sizes <= 2^20 and counts <= 2^40 for the formula; one pool combination (Sapling 1x1, single-output strategy, no memo, no ephemeral balance) for the balance. Other pool combinations, the multi-output strategy and the Orchard turnstile rule are thorough-tier/outside (see DESIGN).",
+   text="ZIP 317 fee_required equals 5000*max(2, logical actions) computed in 128-bit arithmetic for all sizes/counts in the bounds; SingleOutputChangeStrategy::compute_balance on a Sapling 1-in/1-out transaction: for ALL values, dust policies/thresholds, target and anchor heights the solver shows conservation (inputs = outputs + change + fee), fee = ZIP 317 fee of the final shape unless dust is folded in, the dust rule, and that InsufficientFunds is honest; the same shape WITH a change memo (a change output is always present; dust folded into the fee leaves a zero-valued change output and fee - 10000 = the folded dust).",
+   note="Bounds: 2 transparent inputs/outputs with sizes <= 2^20 and counts <= 2^40 for the formula; one pool combination (Sapling 1x1, single-output strategy, with and without a change memo, no ephemeral balance) for the balance. The fully transparent 1-in/2-out shape with transparent change exhausted 34 GB and is kept as experimental; other pool combinations, the multi-output strategy and the Orchard turnstile rule are outside (see DESIGN).",
    ref="§5 C07"),
  "C10": dict(
-   text="F4Jumble is shown to be a length-preserving bijection (inv(jumble(m)) = m and jumble(inv(m)) = m) for EVERY message of each instantiated length, with BLAKE2b abstracted by a deterministic mixing function (a Feistel network is invertible for any round function, so the solver decides the structure: split point, round order, G block index, tail xor); invalid lengths are rejected without touching the buffer.",
-   note="Lengths 48 and 129 in the quick tier plus one seeded member of {63,65,128}; 193 thorough. BLAKE2b output values, the Bech32/Bech32m/Base58Check string layer, ZcashAddress parsing and the ZIP 316 container rules are outside the claim (string code is out of CBMC's reach; container harness not built).",
+   text="F4Jumble is shown to be a length-preserving bijection (inv(jumble(m)) = m and jumble(inv(m)) = m) for EVERY message of each instantiated length, with BLAKE2b abstracted by a deterministic mixing function (a Feistel network is invertible for any round function, so the solver decides the structure: split point, round order, G block index, tail xor); invalid lengths are rejected without touching the buffer. ZIP 316 container rules through the public API: a unified address of 0, 1 or 2 receivers is accepted iff typecodes are distinct, not P2PKH+P2SH, not only transparent (error kinds exact, items stored in ascending order); typecode mapping for all u32; per-item rules of Receiver/Fvk/Ivk for ALL u32 typecodes at the item lengths 20/43/64/65 (96/128 thorough); the container byte layer (hook): one Sapling item + 16 padding bytes is accepted iff the padding is exactly HRP||zeros.",
+   note="F4Jumble lengths: 48 quick plus one seeded member of {63,65,128}; 129 and 193 thorough. In the padding harness F4Jumble^-1 is replaced by the identity (its bijectivity is the other harness) and format! by an empty string. BLAKE2b output values, the Bech32/Bech32m/Base58Check string layer (HRP <-> network mapping, checksums, case), ZcashAddress parsing/encoding, containers of more than 2 items and symbolic item framing are outside the claim (string code and symbolic-length Vecs are out of CBMC's reach here). Uses the verif hook zcash_address::verif_hooks.",
    ref="§5 C10"),
  "C12": dict(
    text="Narrow: memo bytes survive unchanged. MemoBytes::from_bytes for ALL inputs of length 512, 20 and 0 (stored array = input followed by zeros; as_slice = content without trailing zeros) and 513 (TooLong); encoding of the non-text Memo classes (Empty, Arbitrary, Future) reproduces the bytes.",
@@ -51,11 +51,11 @@ CLAIMS.update({
    note="Streams whose rejection loops end within the stated draw budget (2 words = 128 coin flips for anchors). libm::log stubbed by an arbitrary value in [-37,0]; Bucket intervals are instantiated concretely (a symbolic modulus did not finish).",
    ref="§5 C17"),
  "C18": dict(
-   text="One inductive step from an ARBITRARY well-formed 2-transaction state (all lifecycle states, heights, expiries, marks, statuses symbolic): next_broadcastable offers only a Proved, due, unexpired, unreported row outside the dead set whose dependencies are mined, picks the earliest scheduled, never withholds an eligible row (for each of the four possible dead sets); next_step offers Broadcast exactly when the migration is live and next_broadcastable found a row; every public mutator moves rows only forward, truncate_to_height un-mines exactly the rows above the height, policy-terminal statuses are never left, Complete iff all mined.",
+   text="One inductive step from an ARBITRARY well-formed 2-transaction state (all lifecycle states, heights, expiries, marks, statuses symbolic): next_broadcastable offers only a Proved, due, unexpired, unreported row outside the dead set whose dependencies are mined, picks the earliest scheduled, never withholds an eligible row (for each of the four possible dead sets; dependency lists may name a row that does not exist, which must block); next_step offers Broadcast exactly when the migration is live and next_broadcastable found a row; every public mutator moves rows only forward, truncate_to_height un-mines exactly the rows above the height, policy-terminal statuses are never left, Complete iff all mined.",
    note="2 transactions. Not decided: that the real dead_set computes the documented set (it is an input / stubbed), the non-broadcast steps (helpers stubbed in the priority harness), the drive loop advance_migration, record_satisfiability, shift_schedule, the SQLite save/load round trip and 'one non-terminal migration per account'. Representation invariant (unique ids, deps refer to earlier rows, in-flight rows carry their txid) is assumed of the pre-state and asserted of the post-state. Uses the verif hooks next_step / next_broadcastable.",
    ref="§5 C18"),
  "C20": dict(
-   text="Node record codecs V1/V2/V3 decided in two halves against one independent layout description, with EVERY field symbolic (all u64 counter values incl. beyond the compact-size bound, all roots, all work values): write emits exactly the layout byte for byte with the exact length; read of an arbitrary buffer returns exactly the fields the layout places there, Ok iff counters canonical and the height range representable. V1 combine: every field rule, personalisation ZcashHistory||branch id, and record(left) then record(right) hashed once each.",
+   text="Node record codecs V1/V2/V3 decided in two halves against one independent layout description, with EVERY field symbolic (all u64 counter values incl. beyond the compact-size bound, all roots, all work values): write emits exactly the layout byte for byte with the exact length; read of an arbitrary buffer returns exactly the fields the layout places there, Ok iff counters canonical and the height range representable. V1 combine: every field rule, personalisation ZcashHistory||branch id, and record(left) then record(right) hashed once each. Entry::leaf_count / complete arithmetic for all records.",
    note="blake2b_personal is stubbed (records its arguments, returns arbitrary bytes) and, in the combine harness only, NodeData::write is replaced by a 4-byte identifying marker (its real output is the write-layout harness): nothing is claimed about BLAKE2b. Tree::append_leaf/truncate_leaf against a from-scratch MMR did not get through symex (BTreeMap-backed store) and are NOT part of the claim (harnesses kept as experimental).",
    ref="§5 C20"),
 })
